@@ -57,4 +57,12 @@ func registerSpecs() {
 		Real: sshReal, Stub: kexStub,
 		Assumptions: []string{"a stalled handshake is resolved by the attacker cutting the link, which still counts as 'does not succeed'", "mixed mode (one legacy peer) is not emulated: the KEXINIT hook cannot make this package ignore the peer's marker"},
 	}
+	specs["C47"] = &spec{
+		Harness: "otr", Level: "exploration", QuickRuns: 10000, ThoroughRuns: 200000, Chunk: 250,
+		InstrPkgs: []string{},
+		Rule: "one case = one generated conversation between two otr.Conversation values (fixed DSA test keys, seeded Rand, FragmentSize per side in {0, <18, 18, 19..1500}) driven by one event loop whose choices (which side acts, which in-flight message/fragment is delivered, which fault fires) are on the tape. Half of the cases are fault-free (1-3 sessions, query from A, B or both, plaintext messages with and without whitespace tag, up to 30 data messages of 0..2000 bytes without NUL, SMP rounds with equal/unequal secrets and optional question, re-query while encrypted, End) with the exact oracle; half are faulty (drop, duplicate, reorder, text-level corruption of any byte of a fragment or message, binary-level mutation of header/flag/length/MAC bytes, truncation, extension, injection of random bytes / random base64 / well-framed random bodies / truncated and replayed messages / malformed fragments / query variants) with the narrow oracle. Non-trivial = the key exchange settled on both sides, a data message was delivered or an SMP round succeeded; distinct = distinct hash of the event/choice trace",
+		Real: []string{"golang.org/x/crypto/otr (uninstrumented working tree): Conversation.Receive/Send/Authenticate/End/IsEncrypted, AKE state machine, fragmentation, data message MAC and counters, SMP"},
+		Stub: []string{"message network between the two conversations (two queues; delivery order, faults and attacker injections from the choice tape)", "application on both sides (operation lists generated up front)", "Conversation.Rand (seeded ChaCha8 stream per side), crypto/rand (testing/cryptotest.SetGlobalRandom, seeded)"},
+		Assumptions: []string{"fault-free configuration: each direction is FIFO; data messages are sent only after the key exchange has settled when AKE starts can cross (a message encrypted while the peer restarts the AKE is unreadable by protocol design)", "End is issued only when nothing is in flight towards the ending side (messages arriving after End cannot be read by design)", "SMP rounds are started one at a time; equal secrets must succeed only in rounds in which the responder was asked and answered; after a failed round the responder-not-asked outcome is observed, not asserted", "modified = the base64-decoded bytes up to and including the authenticator differ, or the message no longer decodes; changes confined to the old-MAC-keys field or to non-significant base64 bits are unauthenticated by design and not asserted", "application messages contain no NUL byte"},
+	}
 }
